@@ -339,8 +339,20 @@ fn run_batch(prop: &'static str, bi: usize, batch: &Batch, seed: u64) -> Result<
                     let slot = slot_begin(
                         json!({"property": prop, "scenario": batch.name, "batch_index": bi, "seed": seed, "run_index": i, "rule": "run_does_not_terminate", "tape": null, "hang": true}).to_string(),
                     );
-                    let rec = run_one(batch, Tape::generate(seed ^ stream, i), false);
+                    // a panic that escapes run_one is a harness error, never a hang
+                    let rec = std::panic::catch_unwind(AssertUnwindSafe(|| run_one(batch, Tape::generate(seed ^ stream, i), false)));
                     slot_end(slot);
+                    let rec = match rec {
+                        Ok(r) => r,
+                        Err(p) => {
+                            stop.store(true, Ordering::SeqCst);
+                            let mut h = harness_err.lock().unwrap();
+                            if h.is_none() {
+                                *h = Some(format!("panic outside the simulated run in batch {} run {}: {}", batch.name, i, kernel::panic_message(&p)));
+                            }
+                            break;
+                        }
+                    };
                     if let Some(msg) = &rec.harness_panic {
                         stop.store(true, Ordering::SeqCst);
                         let mut h = harness_err.lock().unwrap();
